@@ -172,20 +172,21 @@ def print_posting(p, indent=" "):
     return s
 
 
-def print_txn(t, indent=" "):
+def print_txn(t, indent=" ", meta_order="ult"):
     h = t["ts"]
     if t.get("code") is not None:
         h += " (" + t["code"] + ")"
     if t.get("desc") is not None:
         h += " '" + t["desc"]
     lines = [h]
-    if t.get("uuid"):
-        lines.append(indent + "# uuid: " + t["uuid"])
-    if t.get("loc"):
-        lat, lon, alt = t["loc"]
-        lines.append(indent + "# location: geo:" + lat + "," + lon + ("," + alt if alt else ""))
-    if t.get("tags"):
-        lines.append(indent + "# tags: " + ", ".join(t["tags"]))
+    for k in meta_order:
+        if k == "u" and t.get("uuid"):
+            lines.append(indent + "# uuid: " + t["uuid"])
+        if k == "l" and t.get("loc"):
+            lat, lon, alt = t["loc"]
+            lines.append(indent + "# location: geo:" + lat + "," + lon + ("," + alt if alt else ""))
+        if k == "t" and t.get("tags"):
+            lines.append(indent + "# tags: " + ", ".join(t["tags"]))
     for c in t.get("comments") or []:
         lines.append(indent + ";" + (" " + c if c != "" else ""))
     for p in t["posts"]:
@@ -198,8 +199,9 @@ def print_txn(t, indent=" "):
     return "\n".join(lines) + "\n"
 
 
-def print_journal(ts, indent=" "):
-    return "\n".join(print_txn(t, indent) for t in ts)
+def print_journal(ts, indent=" ", meta_order="ult", sep="\n"):
+    """sep: the blank line(s) between transactions (each must end in a newline)"""
+    return sep.join(print_txn(t, indent, meta_order) for t in ts)
 
 
 BASE_TOML = """[kernel]
